@@ -202,7 +202,10 @@ def run(ctx):
     # ---------------------------------------------------------------- R3 writer thread / close
     for fn in fb.find(pred=lambda f: f.record == APP and f.name == "keep_writing" and f.has_cfg()):
         inst = L.short(fn)
-        ig = IG(fn, inline=nin)
+        # private helpers of the appender that do not themselves reach ::writev are part of the loop body (so that extracting
+        # the destination sweep into a member keeps the verdict); the write-out step stays a call
+        wr_ids = set(f.id for f in fn.tu.fns.values() if f.record == APP and any(True for _ in L.fn_calls(f, name="writev")))
+        ig = IG(fn, inline=lambda fr, ev, callee: callee.record == APP and not callee.lambda_ and callee.id not in wr_ids)
         live = ig.live_nodes()
         pops = [n for n in ig.ev_nodes() if n.id in live and n.ev["e"] == "call" and
                 re.match(r"^babylon::ConcurrentBoundedQueue<.*>::(try_)?pop(_n)?$", n.ev.get("callee", "") or "")]
